@@ -23,15 +23,21 @@ fstack_t fmc_fstacks[MAXFSTACK];
 int fmc_nfstacks;
 void* fmc_cur_ctx[MAXT];
 
+#define SBMAX 16
 typedef struct {
-  int active, pending;
   void* addr;
   int sz;
   uint8_t newv[16], oldv[16];
+} sbe_t;
+// per-thread FIFO store buffer (x86-TSO). Empty unless the explorer chose to delay a
+// store; from then on every later store of the thread queues behind it until a flush.
+typedef struct {
+  int n, pending;  // pending: the last entry's new value is captured at the next callback
+  sbe_t e[SBMAX];
 } sbuf_t;
 
 static struct th {
-  volatile int alive, yielded, idle;
+  volatile int alive, yielded, idle, joining;
   int fut;
   uint64_t yield_epoch;
   void* (*fn)(void*);
@@ -100,6 +106,7 @@ void fmc_log(const char* fmt, ...) {
 }
 
 int fmc_tid(void) { return me; }
+int fmc_tso_mode(void) { return fmc_tso; }
 int fmc_nthreads(void) { return nth; }
 int fmc_exploring(void) { return fmc_is_exploring; }
 uint64_t fmc_steps(void) { return TR ? TR->steps : 0; }
@@ -111,8 +118,27 @@ uint64_t fmc_vticks(void) { return TR->vticks; }
 
 // ---------------------------------------------------------------- TSO overlay
 static void sb_flush(struct th* t) {
-  // owner is running: memory already holds its value
-  t->sb.active = 0;
+  // owner is running: memory already holds its values
+  t->sb.n = 0;
+  t->sb.pending = 0;
+}
+static void sb_append(struct th* t, void* addr, int sz, const void* newv) {
+  if (t->sb.n >= SBMAX) sb_flush(t);
+  sbe_t* e = &t->sb.e[t->sb.n++];
+  e->addr = addr;
+  e->sz = sz;
+  memcpy(e->oldv, addr, sz);
+  if (newv) memcpy(e->newv, newv, sz);
+  else t->sb.pending = 1;
+}
+static void sb_hide(struct th* t) {  // owner leaves the cpu: memory shows the global view
+  for (int i = t->sb.n - 1; i >= 0; i--) memcpy(t->sb.e[i].addr, t->sb.e[i].oldv, t->sb.e[i].sz);
+}
+static void sb_show(struct th* t) {  // owner gets the cpu: it sees its own buffered stores
+  for (int i = 0; i < t->sb.n; i++) {
+    memcpy(t->sb.e[i].oldv, t->sb.e[i].addr, t->sb.e[i].sz);
+    memcpy(t->sb.e[i].addr, t->sb.e[i].newv, t->sb.e[i].sz);
+  }
 }
 static void capture_pending(struct th* t);
 static void progress(void) {
@@ -132,11 +158,9 @@ static void capture_pending(struct th* t) {
   }
   if (t->sb.pending) {
     t->sb.pending = 0;
-    memcpy(t->sb.newv, t->sb.addr, t->sb.sz);
-    if (memcmp(t->sb.newv, t->sb.oldv, t->sb.sz) != 0) {
-      t->sb.active = 1;
-      TRC("[%lu] T%d store to %p delayed\n", (unsigned long)TR->steps, me, t->sb.addr);
-    }
+    sbe_t* e = &t->sb.e[t->sb.n - 1];
+    memcpy(e->newv, e->addr, e->sz);
+    TRC("[%lu] T%d store to %p buffered (%d in buffer)\n", (unsigned long)TR->steps, me, e->addr, t->sb.n);
   }
 }
 
@@ -144,11 +168,8 @@ static void do_switch(int to) {
   if (to == me) return;
   TRC("[%lu] switch T%d -> T%d (T%d was about to execute pc=%p)\n", (unsigned long)TR->steps, me, to, me, last_pc);
   if (fmc_tso) {
-    if (T[me].sb.active) memcpy(T[me].sb.addr, T[me].sb.oldv, T[me].sb.sz);
-    if (T[to].sb.active) {
-      memcpy(T[to].sb.oldv, T[to].sb.addr, T[to].sb.sz);
-      memcpy(T[to].sb.addr, T[to].sb.newv, T[to].sb.sz);
-    }
+    sb_hide(&T[me]);
+    sb_show(&T[to]);
   }
   TR->switches++;
   T[to].run = 0;
@@ -171,6 +192,7 @@ static int choose(int kind, unsigned mask, int deflt, int flags, uint32_t site) 
       fmc_finish(V_DIVERGE, b);
     }
   }
+  TRC("[%lu] T%d cp#%u kind=%d mask=%x default=%d chosen=%d pc=%p\n", (unsigned long)TR->steps, me, i, kind, mask, deflt, chosen, last_pc);
   TR->cp[i] = (cp_t){(uint8_t)kind, (uint8_t)chosen, (uint8_t)deflt, (uint8_t)flags, (uint16_t)mask, (uint16_t)site};
   TR->ncp = i + 1;
   return chosen;
@@ -261,7 +283,16 @@ static void oracle_access(void* addr, int sz, int w, void* pc) {
 }
 
 // ---------------------------------------------------------------- scheduler core
-static int eligible_other(int t) { return T[t].alive && (!T[t].yielded || T[t].yield_epoch < progress_epoch); }
+static int only_alive(int t) {
+  for (int k = 0; k < nth; k++)
+    if (k != t && T[k].alive) return 0;
+  return 1;
+}
+static int eligible_other(int t) {
+  if (!T[t].alive) return 0;
+  if (T[t].joining) return only_alive(t);  // blocked in fmc_wait_threads until everybody else exited
+  return !T[t].yielded || T[t].yield_epoch < progress_epoch;
+}
 static int others_alive(void) {
   for (int t = 0; t < nth; t++)
     if (t != me && T[t].alive) return 1;
@@ -366,11 +397,11 @@ static void sched_point(void* addr, int sz, int w, int always, void* pc, int flu
   }
   if (fmc_tracing > 1) fmc_rawlog("[%lu] T%d %s %p sz=%d pc=%p\n", (unsigned long)TR->steps, me, w ? "W" : "R", addr, sz, pc);
   int in_S = always || !fmc_use_site_filter || SH->site_shared[sh];
-  if (fmc_tso) {
-    if (flush) sb_flush(t);
-    else if (t->sb.active && others_alive()) {
-      if (choose(K_COMMIT, 3, 0, 0, sh) == 1) sb_flush(t);
-    }
+  // a buffered store may be committed early at any later callback of its owner; it is
+  // committed at the latest when the owner is about to execute a flushing operation,
+  // i.e. AFTER the scheduling decision below (others may run while it is still buffered)
+  if (fmc_tso && !flush && t->sb.n && others_alive()) {
+    if (choose(K_COMMIT, 3, 0, 0, sh) == 1) sb_flush(t);
   }
   if (++t->nop > fmc_L0 || ++t->run > fmc_L) {
     t->run = 0;
@@ -400,6 +431,7 @@ static void sched_point(void* addr, int sz, int w, int always, void* pc, int flu
       progress();
     }
   }
+  if (fmc_tso && flush) sb_flush(t);
   if (w && addr) {
     if (plainw && sz <= 16) {
       if (shared_loc) {
@@ -407,13 +439,9 @@ static void sched_point(void* addr, int sz, int w, int always, void* pc, int flu
         t->pw_sz = sz;
         memcpy(t->pw_old, addr, sz);
       }
-      if (fmc_tso && in_S && !t->sb.active && others_alive()) {
-        if (choose(K_DELAY, 3, 0, 0, sh) == 1) {
-          t->sb.pending = 1;
-          t->sb.addr = addr;
-          t->sb.sz = sz;
-          memcpy(t->sb.oldv, addr, sz);
-        }
+      if (fmc_tso && others_alive()) {
+        if (t->sb.n) sb_append(t, addr, sz, 0);  // FIFO: queues behind the delayed store
+        else if (in_S && choose(K_DELAY, 3, 0, 0, sh) == 1) sb_append(t, addr, sz, 0);
       }
     } else if (plainw && shared_loc) {
       progress();
@@ -455,6 +483,34 @@ int fmc_env_choose(int nalts) {
   return choose(K_ENV, mask, 0, 0, 0);
 }
 
+// thread 0 blocks (is never scheduled) until every other kernel thread has exited
+void fmc_wait_threads(void) {
+  if (!fmc_is_exploring) return;
+  struct th* t = &T[me];
+  capture_pending(t);
+  if (fmc_tso) sb_flush(t);
+  t->joining = 1;
+  t->yielded = 1;
+  t->idle = 1;
+  while (others_alive()) {
+    unsigned mask = 0;
+    for (int k = 0; k < nth; k++)
+      if (k != me && eligible_other(k)) mask |= 1u << k;
+    if (!mask) {
+      for (int k = 0; k < nth; k++)
+        if (k != me && T[k].alive && T[k].yielded && !T[k].idle) mask |= 1u << k;
+      if (!mask) quiescent();
+      if (!mask) continue;
+    }
+    int chosen = __builtin_ctz(mask);
+    if (__builtin_popcount(mask) > 1) chosen = choose(K_YIELD, mask, chosen, 0, 0);
+    do_switch(chosen);
+  }
+  t->joining = 0;
+  t->yielded = 0;
+  t->idle = 0;
+}
+
 void fmc_begin(void) {
   if (me != 0) fmc_finish(V_ENGINE, "fmc_begin not on thread 0");
   T[0].alive = 1;
@@ -476,15 +532,15 @@ static void thread_exit_switch(void) {
   progress();
   unsigned mask = 0;
   for (int k = 0; k < nth; k++)
-    if (k != me && T[k].alive) mask |= 1u << k;
+    if (k != me && T[k].alive && !T[k].joining) mask |= 1u << k;
+  if (!mask)
+    for (int k = 0; k < nth; k++)
+      if (k != me && T[k].alive) mask |= 1u << k;
   if (!mask) fmc_finish(V_FAIL, "all threads exited without fmc_end");
   int chosen = __builtin_ctz(mask);
   if (__builtin_popcount(mask) > 1) chosen = choose(K_YIELD, mask, chosen, 0, 0);
   TRC("[%lu] T%d exits -> T%d\n", (unsigned long)TR->steps, me, chosen);
-  if (fmc_tso && T[chosen].sb.active) {
-    memcpy(T[chosen].sb.oldv, T[chosen].sb.addr, T[chosen].sb.sz);
-    memcpy(T[chosen].sb.addr, T[chosen].sb.newv, T[chosen].sb.sz);
-  }
+  if (fmc_tso) sb_show(&T[chosen]);
   TR->switches++;
   T[chosen].run = 0;
   T[chosen].yielded = 0;
@@ -493,13 +549,17 @@ static void thread_exit_switch(void) {
 }
 
 static void install_altstack(void);
+static void sched_point(void* addr, int sz, int w, int always, void* pc, int flush, int plainw);
 static void* tramp(void* p) {
   int id = (int)(intptr_t)p;
   me = id;
   install_altstack();
   park(id);
   void* r = T[id].fn(T[id].arg);
-  if (fmc_is_exploring) thread_exit_switch();
+  if (fmc_is_exploring) {
+    sched_point(0, 0, 0, 1, (void*)tramp, 0, 0);  // others may still run before this thread's last store drains
+    thread_exit_switch();
+  }
   else T[id].alive = 0;
   // never return into libc's thread exit while others run: just sleep forever
   for (;;) syscall(SYS_pause);
@@ -629,7 +689,8 @@ void __tsan_set_fiber_name(void* f, const char* n) {}
 #define RA __builtin_return_address(0)
 static void range_point(void* a, unsigned long n, int w, void* pc) {
   if (!fmc_is_exploring) return;
-  sched_point(a, n > 16 ? 16 : (int)n, w, 0, pc, w, w);
+  sched_point(a, n > 16 ? 16 : (int)n, w, 0, pc, w, 0);
+  if (w) progress();
   if (n > 16 && (fmc_omask & FMC_O_HEAP)) {
     int s = fmc_shadow_state(a, n);
     if (s > 0) {
@@ -643,23 +704,28 @@ void __tsan_write_range(void* a, unsigned long n) { range_point(a, n, 1, RA); }
 void __tsan_read_range(void* a, unsigned long n) { range_point(a, n, 0, RA); }
 #define RW(n)                                                              \
   void __tsan_read##n(void* a) { sched_point(a, n, 0, 0, RA, 0, 0); }      \
-  void __tsan_write##n(void* a) { sched_point(a, n, 1, 0, RA, 1, 1); }     \
+  void __tsan_write##n(void* a) { sched_point(a, n, 1, 0, RA, 0, 1); }     \
   void __tsan_unaligned_read##n(void* a) { sched_point(a, n, 0, 0, RA, 0, 0); } \
-  void __tsan_unaligned_write##n(void* a) { sched_point(a, n, 1, 0, RA, 1, 1); }
+  void __tsan_unaligned_write##n(void* a) { sched_point(a, n, 1, 0, RA, 0, 1); }
 RW(1) RW(2) RW(4) RW(8) RW(16)
-void __tsan_read_write1(void* a) { sched_point(a, 1, 1, 0, RA, 1, 1); }
-void __tsan_read_write2(void* a) { sched_point(a, 2, 1, 0, RA, 1, 1); }
-void __tsan_read_write4(void* a) { sched_point(a, 4, 1, 0, RA, 1, 1); }
-void __tsan_read_write8(void* a) { sched_point(a, 8, 1, 0, RA, 1, 1); }
-void __tsan_read_write16(void* a) { sched_point(a, 16, 1, 0, RA, 1, 1); }
+void __tsan_read_write1(void* a) { sched_point(a, 1, 1, 0, RA, 0, 1); }
+void __tsan_read_write2(void* a) { sched_point(a, 2, 1, 0, RA, 0, 1); }
+void __tsan_read_write4(void* a) { sched_point(a, 4, 1, 0, RA, 0, 1); }
+void __tsan_read_write8(void* a) { sched_point(a, 8, 1, 0, RA, 0, 1); }
+void __tsan_read_write16(void* a) { sched_point(a, 16, 1, 0, RA, 0, 1); }
 void __tsan_vptr_update(void** a, void* v) {}
 void __tsan_vptr_read(void** a) {}
 
 #define SEQ 5
-static int atomic_store_delay(void* a, int sz, int mo, uint32_t sh) {
+// returns 1 if the (non seq-cst) atomic store goes into the store buffer
+static int atomic_store_delay(void* a, int sz, int mo, uint32_t sh, const void* newv) {
   struct th* t = &T[me];
-  if (!fmc_is_exploring || !fmc_tso || mo == SEQ || t->sb.active || !others_alive()) return 0;
-  return choose(K_DELAY, 3, 0, 0, sh) == 1;
+  if (!fmc_is_exploring || !fmc_tso || mo == SEQ || !others_alive()) return 0;
+  if (t->sb.n || choose(K_DELAY, 3, 0, 0, sh) == 1) {
+    sb_append(t, a, sz, newv);
+    return 1;
+  }
+  return 0;
 }
 #define AT(bits, Ty)                                                                                              \
   Ty __tsan_atomic##bits##_load(const volatile Ty* a, int mo) {                                                   \
@@ -669,14 +735,10 @@ static int atomic_store_delay(void* a, int sz, int mo, uint32_t sh) {
     return r_;                                                                                                    \
   }                                                                                                               \
   void __tsan_atomic##bits##_store(volatile Ty* a, Ty v, int mo) {                                                \
-    sched_point((void*)a, bits / 8, 1, 1, RA, 1, 0);                                                              \
+    sched_point((void*)a, bits / 8, 1, 1, RA, mo == SEQ, 0);                                                      \
     Ty old = *a;                                                                                                  \
     if (old != v && fmc_is_exploring) progress();                                                                 \
-    if (old != v && atomic_store_delay((void*)a, bits / 8, mo, sitehash(RA))) {                                   \
-      sbuf_t* s = &T[me].sb;                                                                                      \
-      s->addr = (void*)a; s->sz = bits / 8; memcpy(s->oldv, &old, bits / 8); memcpy(s->newv, &v, bits / 8);       \
-      s->active = 1;                                                                                              \
-    }                                                                                                             \
+    atomic_store_delay((void*)a, bits / 8, mo, sitehash(RA), &v);                                                 \
     wl('S', a, bits / 8, old, v);                                                                                 \
     __atomic_store_n(a, v, __ATOMIC_SEQ_CST);                                                                     \
   }                                                                                                               \
